@@ -293,7 +293,7 @@ def run(chk: core.Check):
     )
     chk.assumptions += ["pandas index semantics are exercised, not modelled: the models work on positions only"]
     rng = core.rng_for(chk.seed, "C05/hand")
-    cases = [gen_hand(rng, 14) for _ in range(N)]
+    cases = core.Gen(gen_hand, rng, 14, N)
     # exhaustive small supplement: every valid collective sparse output for n <= 5 (as bit patterns)
     res = chk.run_stream("hand", cases, impl_hand, oracle=oracle_hand, site="sparse_to_dense/dense_to_sparse",
                          nontrivial=lambda c, r: bool(c.get("anoms") or c.get("cps")))
@@ -314,7 +314,7 @@ def run(chk: core.Check):
     if ok:
         chk.samples.append({"stream": "hand/model", "line": hand_lines(ok[0][0]), "model": outs[0], "back": outs2[0]})
     rng = core.rng_for(chk.seed, "C05/detectors")
-    chk.run_stream("detectors", [gen_det(rng, 30) for _ in range(N // 6)], impl_det, oracle=oracle_det, site="transform",
+    chk.run_stream("detectors", core.Gen(gen_det, rng, 30, N // 6), impl_det, oracle=oracle_det, site="transform",
                    nontrivial=lambda c, r: r.get("outcome") == "ok" and len(r["sparse"]) > 0,
                    describe=lambda c: {k: v for k, v in c.items() if k != "X"} | {"X[:4]": c["X"][:4]})
     return chk.finish()
